@@ -121,6 +121,25 @@ def setup():
         if getattr(pool, "_verif_log", False):
             LOG.append({"e": "WorkerExit", "w": widx()})
     T.Pool.process, T.Pool.notify_done, T.Pool.close, T.Worker.run = process, notify_done, close, run
+    # two points inside the critical sections are made visible: the hand-over of a job to its worker, and the moment the pool
+    # becomes closed (both happen under the pool's lock in Pool.process / Pool.close)
+    _wprocess = T.Worker.process
+
+    def wprocess(self, job):
+        j = getattr(job, "j", None)
+        if j is not None:        # (jobs with a number exist in this harness only)
+            LOG.append({"e": "Hand", "j": j})
+        return _wprocess(self, job)
+    T.Worker.process = wprocess
+
+    def get_closed(self):
+        return self.__dict__.get("_verif_closed", False)
+
+    def set_closed(self, v):
+        self.__dict__["_verif_closed"] = v
+        if v and getattr(self, "_verif_log", False):
+            LOG.append({"e": "ClosedSet"})
+    T.Pool.closed = property(get_closed, set_closed)
     return T
 
 
@@ -191,6 +210,8 @@ def run_once(T, config, chooser, script, size, mn, eager=False, raising=False):
                     finally:
                         closer_done[0] = True
                 sc.spawn("closer", closer)
+                if eager and ai + 1 < len(script) and script[ai + 1] == "submit":
+                    continue        # the close and the next submission start together
             sc.soft_yield()
         for k in range(1, j + 1):
             gates[k] = True
@@ -224,6 +245,9 @@ def diagnose(tr, size):
         return "C18.Close/Progress(%s)" % end["how"]
     if end["maxw"] > size:
         return "C18.WorkerBound"
+    evs = [e["e"] for e in tr]
+    if "ClosedSet" in evs and "Hand" in evs[evs.index("ClosedSet"):]:
+        return "C18.JobHandedOverAfterPoolClosed"
     starts = collections.Counter(e["j"] for e in tr if e["e"] == "JobStart")
     if any(v > 1 for v in starts.values()):
         return "C18.RunTwice"
@@ -333,7 +357,8 @@ def run(ctx):
     rng.shuffle(scripts)
     # scripts in which a submission can meet a finishing worker or a close are the interesting ones: keep those first
     def interest(s):
-        return -(sum(1 for i in range(len(s) - 1) if s[i] == "release" and s[i + 1] == "submit") * 2 + ("close" in s) + s.count("submit"))
+        return -(sum(1 for i in range(len(s) - 1) if s[i] == "release" and s[i + 1] == "submit") * 2 + ("close" in s) + s.count("submit")
+                 + 2 * any(s[i] == "close" and s[i + 1] == "submit" for i in range(len(s) - 1)))
     scripts.sort(key=interest)
     scripts = scripts[:ctx.pick(14, 200)]
     sizes = [(1, 1), (2, 1), (2, 2)] if ctx.quick else [(1, 1), (2, 1), (2, 2), (3, 1), (3, 2)]
